@@ -81,6 +81,9 @@ fn error_tweaks(nfiles: usize, img: &ref_pack::ArcImage, files: &[(String, Vec<u
     for slot in 0..nfiles {
         let fi = l.record_order[slot];
         v.push(ErrCase { what: "nameless-record", tweak: ArcTweak { nameless_record: Some(slot), ..Default::default() } });
+        for k in 0..3u8 {
+            v.push(ErrCase { what: "nameless-record-data-pointer", tweak: ArcTweak { nameless_pointer: Some((slot, k)), ..Default::default() } });
+        }
         let len = files[fi].1.len();
         let addr = img.body_addr[fi];
         // size pushed past the end of the data region
